@@ -137,7 +137,11 @@ Definition step_op (cfgv : list Z) (st : cstate) (now : Z) (o : op) : list Z * l
   | OSprExit => ([], cfgv, spr_exit st, now)
   | OOvEnter ovr => ([], cfgv, ov_enter st ovr, now)
   | OOvExit => ([], cfgv, ov_exit st, now)
-  | OSetCfg slot v => ([], set_nth cfgv (Z.to_nat slot) v, st, now)
+  | OSetCfg slot v =>
+    (* set_config stores the value, then validate_config: only 2006 / 2013 / 2020 are editions (ConfigError otherwise;
+       the rejected value stays in the configuration) *)
+    ((if (slot =? 6) && negb ((v =? 2006) || (v =? 2013) || (v =? 2020)) then [2; err_code EConfig] else []),
+     set_nth cfgv (Z.to_nat slot) v, st, now)
   | OAdvance dt => ([], cfgv, st, now + dt)
   | OCall c replies =>
     let s := map (fun '(d, it) => (now + d, it)) replies in
